@@ -72,7 +72,9 @@ ApplyEntry(e, h) ==
 \* "parared": a paragraph using the stock tag c1 on an I/O whose formatter's style set gives c1 other attributes
 Components == {"table", "para", "parared", "labeled", "namever", "empty", "apphelp", "cmdhelp", "trace", "trace2"}
 IsTrace(c) == c \in {"trace", "trace2"}
-\* an I/O: [utf8, ansi, verb]   verb \in {"normal", "verbose", "debug"}
+\* an I/O: [utf8, ansi, verb, width]   verb \in {"normal", "verbose", "debug"}, width = terminal columns
+\* components whose text is wrapped to the terminal width
+Wraps(c) == c \in {"table", "para", "parared", "labeled", "apphelp", "cmdhelp"}
 
 VARIABLES
   \* A-layer
@@ -137,6 +139,7 @@ Glyphs(c, io) ==
 View(c, io, g) == [comp |-> c, ansi |-> IF c = "empty" THEN FALSE ELSE io.ansi,
                    verb |-> IF IsTrace(c) THEN io.verb ELSE "-",
                    glyphs |-> IF IsTrace(c) THEN io.utf8 ELSE TRUE,
+                   width |-> IF Wraps(c) THEN io.width ELSE 0,
                    snippet |-> IF IsTrace(c) /\ io.verb = "debug" THEN g ELSE TRUE]
 Shown(c, io) == View(c, io, Glyphs(c, io))
 Pure(c, io) == View(c, io, io.utf8)
